@@ -178,6 +178,18 @@ CLAIMED = {
         "scores compared at 1e-6 relative",
         "DESIGN.md section 4 C17",
     ),
+    "C16": (
+        "post-load monitor on generated VCF files: support of every catalogued variant and reference support vs the written genotypes; end-to-end call",
+        "Catalogued alleles of generated and small shipped databases are written as standard left-anchored VCF records "
+        "(SNP, deletion, insertion, multi-nucleotide as one or as adjacent records; 0/1, 1/1, 1/2, phased; records whose "
+        "REF is the variant base; unrelated MNP / complex records; missing, haploid and triploid genotypes; multi-sample "
+        "files with a sample index), bgzipped and indexed; after Sample(...) the support of every catalogued variant and "
+        "the reference support at every catalogued site are compared with the alternate-copy counts; genotype() on the "
+        "VCF must report reference/allele. Wrong cells count as known findings only for the listed insertion / "
+        "multi-nucleotide mechanisms.",
+        "pseudo-read bookkeeping 20 reference / 10 per alternate copy as documented",
+        "DESIGN.md section 4 C16",
+    ),
 }
 
 NOT_YET = {}
